@@ -13,7 +13,7 @@ import re
 
 from report import AnalysisError, VERIF
 from cfront import (TU, CCFG, CLower, kids, kind, strip, walk, ctext, cliterals, calls_to,
-                    call_args, array_extent, wrap_int, strip_comments)
+                    call_args, array_extent, strip_comments)
 import exprnf as X
 
 EXPLANATION = (
@@ -23,14 +23,20 @@ EXPLANATION = (
     "clang AST with all constants folded. Per row: channel in the layout's "
     "lchan_mask, burst id is the cyclic successor of the channel's previous "
     "burst; per layout: period == declared dimension == number of rows, and "
-    "every frame lookup in sched_trx.c indexes `x % layout->period`; channel "
-    "states are allocated exactly for the mask bits. l1sched_mframe_layout is "
+    "every frame lookup in sched_trx.c indexes `x % layout->period` (an index "
+    "kept incrementally in a local is bounded by a finite-domain forward "
+    "analysis of that variable for every layout period); channel states are "
+    "allocated exactly for the mask bits (guard evaluated for all masks x "
+    "types with C's implicit conversions, helper functions followed). "
+    "l1sched_mframe_layout is "
     "evaluated exactly over all (config, tn) pairs with the checker's own "
     "evaluator (pure decision chain over a finite domain) and its return "
     "guard is compared with the specified predicate on all (entry, config, "
     "tn) triples. The firmware trigger is brought to expression normal form "
     "((fn + A) mod modulo == frame_nr mod modulo, set queued A - 1 frames "
-    "ahead). Cross-agreement: for every mapped firmware task / direction the "
+    "ahead; any other comparison of the frame-number remainder with a value "
+    "of the row is decided by evaluating it on every table row over one full "
+    "period). Cross-agreement: for every mapped firmware task / direction the "
     "frame set it triggers in, expanded over lcm(modulo, period), equals the "
     "set of first-burst frames (or owned frames for frame-by-frame tasks) of "
     "the corresponding trxcon channel in every layout the lookup can select; "
@@ -42,6 +48,7 @@ ASSUMPTIONS = [
     "spec/ts45002_clause7.json: transcription of 3GPP TS 45.002 clause 7 tables 1, 3, 4, 6 (block positions)",
     "GSM_PCHAN_*_CBCH values of cstubs/host/compat.h (copied from upstream libosmocore)",
     "quick tier: the period-0 entry (GSM_PCHAN_NONE) is never handed to l1sched_configure_ts (decided by the thorough tier: value sets of all call sites)",
+    "incrementally maintained lookup index: branch conditions the analysis cannot evaluate are free (both branches possible), a plain frame-number lvalue takes every residue modulo the period, and the layout a timeslot points to is not replaced between the definition of the index and the lookup",
     "thorough tier: trxcon source files that clang cannot parse here are covered by an identifier scan of their comment-stripped text only (they must not mention `frames`, l1sched_configure_ts, l1sched_mframe_layout)",
 ]
 
@@ -192,10 +199,10 @@ class Locals:
         return len(self.defs.get(i, [])) if i is not None else None
 
 
-def pure(e):
+def pure(e, calls_ok=False):
     for n in walk(e):
         k = kind(n)
-        if k in ("CallExpr", "CompoundAssignOperator", "StmtExpr"):
+        if k in ("CompoundAssignOperator", "StmtExpr") or (k == "CallExpr" and not calls_ok):
             return False
         if k == "BinaryOperator" and n.get("opcode") == "=":
             return False
@@ -240,12 +247,96 @@ class EvalOOB(Exception):
 _NOTHING = object()
 
 
-def ceval(tu, n, leaf):
+_BITS = {"uint64_t": (64, False), "int64_t": (64, True), "unsigned long long": (64, False), "long long": (64, True),
+         "unsigned int": (32, False), "int": (32, True), "uint32_t": (32, False), "int32_t": (32, True),
+         "unsigned short": (16, False), "short": (16, True), "uint16_t": (16, False), "int16_t": (16, True),
+         "unsigned char": (8, False), "signed char": (8, True), "char": (8, True), "uint8_t": (8, False),
+         "int8_t": (8, True)}
+
+
+def int_type(tu, ty):
+    """(bits, signed) of a clang type record ({'qualType', 'desugaredQualType'?}) or None (not a plain
+    integer type / unknown typedef).  `long` follows the target of the translation unit."""
+    if not isinstance(ty, dict):
+        ty = {"qualType": ty or ""}
+    for q in (ty.get("qualType", ""), ty.get("desugaredQualType", "")):
+        q = re.sub(r"\b(const|volatile)\b", "", q).strip()
+        if q in _BITS:
+            return _BITS[q]
+        if q in ("unsigned long", "long", "size_t", "ssize_t"):
+            return (32 if tu.kind == "fw" else 64, q in ("long", "ssize_t"))
+        if q in ("_Bool", "bool"):
+            return (1, False)
+    return None
+
+
+def cwrap(tu, v, ty):
+    """integer v converted to the C type ty (value unchanged for enum / unknown types)"""
+    bt = int_type(tu, ty)
+    if bt is None or not isinstance(v, int):
+        return v
+    bits, signed = bt
+    if bits == 1:
+        return int(v != 0)
+    v &= (1 << bits) - 1
+    if signed and v >= 1 << (bits - 1):
+        v -= 1 << bits
+    return v
+
+
+def pure_callee(tu, call):
+    """(name, FunctionDecl, operand of its return statement) of a direct call of a function that is defined
+    in this translation unit (static inline helpers of headers included) and whose body is a single
+    `return <side-effect free expression>;` -- else AnalysisError.  The operand keeps the implicit
+    conversion to the function's return type."""
+    callee = strip(kids(call)[0])
+    rd = callee.get("referencedDecl", {}) if kind(callee) == "DeclRefExpr" else {}
+    if rd.get("kind") != "FunctionDecl":
+        raise AnalysisError("evaluator: expression outside the vocabulary: %s (indirect call)" % ctext(call)[:60])
+    name = rd.get("name")
+    f = tu.functions.get(name)
+    if f is None or not any(kind(c) == "CompoundStmt" for c in kids(f)):
+        raise AnalysisError("evaluator: expression outside the vocabulary: %s (CallExpr, body of %s() not visible)" % (
+            ctext(call)[:60], name))
+    st = kids(tu.body(f))
+    if len(st) != 1 or kind(st[0]) != "ReturnStmt" or not kids(st[0]) or not pure(kids(st[0])[0], calls_ok=True):
+        raise AnalysisError("evaluator: %s() is not a single side-effect free return statement; outside the vocabulary" % name)
+    if len(call_args(call)) != len(tu.fparams(f)):
+        raise AnalysisError("evaluator: call of %s() with %d arguments" % (name, len(call_args(call))))
+    return name, f, kids(st[0])[0]
+
+
+def ceval(tu, n, leaf, depth=0):
     """Value of a side-effect free C expression; `leaf(node)` supplies the
-    values of variables / memory (or _NOTHING)."""
-    n = strip(n)
+    values of variables / memory (or _NOTHING).  Implicit integral
+    conversions (clang's ImplicitCastExpr) are applied, calls of
+    single-return helper functions are evaluated on the callee's body with
+    the parameters bound to the (converted) arguments and the result
+    converted to the declared return type."""
+    while n is not None and kind(n) in ("ParenExpr", "ConstantExpr") and kids(n):
+        n = kids(n)[0]
     if n is None:
         raise AnalysisError("evaluator: empty expression")
+    if kind(n) == "ImplicitCastExpr" and kids(n):
+        a = ceval(tu, kids(n)[0], leaf, depth)
+        if isinstance(a, int):
+            if n.get("castKind") == "IntegralCast":
+                return cwrap(tu, a, n.get("type"))
+            if n.get("castKind") == "IntegralToBoolean":
+                return int(a != 0)
+        return a
+    if kind(n) == "CallExpr":
+        if depth > 3:
+            raise AnalysisError("evaluator: helper calls nested too deeply in %s" % ctext(n)[:60])
+        name, f, ret = pure_callee(tu, n)
+        pidx = {p["id"]: i for i, p in enumerate(tu.fparams(f))}
+        args = call_args(n)
+
+        def inner(x):
+            if kind(x) == "DeclRefExpr" and x.get("referencedDecl", {}).get("id") in pidx:
+                return ceval(tu, args[pidx[x["referencedDecl"]["id"]]], leaf, depth + 1)
+            return leaf(x)
+        return ceval(tu, ret, inner, depth + 1)
     v = tu.fold(n)
     if v is not None:
         return v
@@ -256,7 +347,7 @@ def ceval(tu, n, leaf):
     ks = kids(n)
     if k == "UnaryOperator":
         op = n.get("opcode")
-        a = ceval(tu, ks[0], leaf)
+        a = ceval(tu, ks[0], leaf, depth)
         if op in ("&", "*") and isinstance(a, tuple):
             return a
         if isinstance(a, tuple):
@@ -275,10 +366,10 @@ def ceval(tu, n, leaf):
     if k == "BinaryOperator":
         op = n.get("opcode")
         if op == "&&":
-            return int(bool(truth(ceval(tu, ks[0], leaf))) and bool(truth(ceval(tu, ks[1], leaf))))
+            return int(bool(truth(ceval(tu, ks[0], leaf, depth))) and bool(truth(ceval(tu, ks[1], leaf, depth))))
         if op == "||":
-            return int(bool(truth(ceval(tu, ks[0], leaf))) or bool(truth(ceval(tu, ks[1], leaf))))
-        a, b = ceval(tu, ks[0], leaf), ceval(tu, ks[1], leaf)
+            return int(bool(truth(ceval(tu, ks[0], leaf, depth))) or bool(truth(ceval(tu, ks[1], leaf, depth))))
+        a, b = ceval(tu, ks[0], leaf, depth), ceval(tu, ks[1], leaf, depth)
         if isinstance(a, tuple) or isinstance(b, tuple):
             if op == "+" and isinstance(a, tuple) and isinstance(b, int):
                 return (a[0], a[1] + b)
@@ -327,10 +418,10 @@ def ceval(tu, n, leaf):
             raise AnalysisError("evaluator: undefined arithmetic in %s" % ctext(n))
         raise AnalysisError("evaluator: binary %s" % op)
     if k == "ConditionalOperator":
-        return ceval(tu, ks[1] if truth(ceval(tu, ks[0], leaf)) else ks[2], leaf)
+        return ceval(tu, ks[1] if truth(ceval(tu, ks[0], leaf, depth)) else ks[2], leaf, depth)
     if k == "CStyleCastExpr":
-        a = ceval(tu, ks[0], leaf)
-        return wrap_int(a, n.get("type", {}).get("qualType", "")) if isinstance(a, int) else a
+        a = ceval(tu, ks[0], leaf, depth)
+        return cwrap(tu, a, n.get("type")) if isinstance(a, int) else a
     raise AnalysisError("evaluator: expression outside the vocabulary: %s (%s)" % (ctext(n)[:60], k))
 
 
@@ -359,6 +450,457 @@ def induction(tu, forstmt):
     if vid is None or start is None or not ok:
         raise AnalysisError("loop is not of the form for (v = const; ...; v++)")
     return vid, start
+
+
+# ------------------------------------ incrementally maintained lookup index
+
+class _Opaque(object):
+    def __repr__(self):
+        return "OPAQUE"
+
+
+OPQ = _Opaque()         # value the analysis does not model
+UNINIT = "uninit"
+ANYV = "any"
+
+
+def _arith(op, a, b):
+    if op == "+":
+        return a + b
+    if op == "-":
+        return a - b
+    if op == "*":
+        return a * b
+    if op == "/":
+        return int(a / b)
+    if op == "%":
+        return a - b * int(a / b)
+    if op == "<<":
+        return a << b
+    if op == ">>":
+        return a >> b
+    if op == "&":
+        return a & b
+    if op == "|":
+        return a | b
+    if op == "^":
+        return a ^ b
+    if op == "<":
+        return int(a < b)
+    if op == ">":
+        return int(a > b)
+    if op == "<=":
+        return int(a <= b)
+    if op == ">=":
+        return int(a >= b)
+    if op == "==":
+        return int(a == b)
+    if op == "!=":
+        return int(a != b)
+    raise AnalysisError("index analysis: operator %s" % op)
+
+
+class IndexRange:
+    """Finite-domain forward analysis of ONE local integer variable (the
+    index of a frame lookup that is maintained incrementally instead of
+    being computed as `x % period` at the lookup) for ONE concrete value P
+    of `<layout>->period`.
+
+    Collecting semantics over the statement CFG: the state of a node is the
+    set of values the variable can hold on entry.  Every definition of the
+    variable is executed exactly (C conversions to the variable's type and
+    of the intermediate results applied); `<same layout>->period` is P; an
+    unsigned remainder `x % <int>` of an unmodelled x is every value
+    0..<int>-1.  Branch conditions are evaluated per value (three-valued:
+    && / || short-circuit on the decided operand); a condition the analysis
+    cannot evaluate lets the value pass into both branches."""
+
+    LIMIT = 2048
+
+    def __init__(self, tu, f, g, loc, vid, base, P):
+        self.tu, self.f, self.g, self.loc, self.vid, self.base, self.P = tu, f, g, loc, vid, base, P
+        self.vtype = loc.decl[vid].get("type", {})
+        self.name = loc.decl[vid].get("name")
+        self.defids = {id(d[2]) for d in loc.defs.get(vid, [])}
+        if any(d[0] == "addr" for d in loc.defs.get(vid, [])):
+            raise AnalysisError("%s(): the address of index variable `%s` is taken; unclassifiable" % (f.get("name"), self.name))
+        self._hd = {}
+        self._mn = {}
+        self.cur = UNINIT
+        self.taint = False
+        self.imprecise = None       # reason why an out-of-range value would not be a proof
+        self.opaque_conds = {}      # node id -> cond node whose outcome was not decided for some value
+
+    # -- syntactic facts (cached per AST node)
+    def has_defs(self, n):
+        r = self._hd.get(id(n))
+        if r is None:
+            r = self._hd[id(n)] = any(id(x) in self.defids for x in walk(n))
+        return r
+
+    def mentions(self, n):
+        r = self._mn.get(id(n))
+        if r is None:
+            r = self._mn[id(n)] = any(kind(x) == "DeclRefExpr" and Locals._ref(x) == self.vid for x in walk(n))
+        return r
+
+    def conv(self, v):
+        return cwrap(self.tu, v, self.vtype)
+
+    def read(self):
+        if isinstance(self.cur, int):
+            return self.cur
+        if isinstance(self.cur, tuple):
+            raise AnalysisError("%s(): `%s` is read in the statement that assigns it a remainder; unclassifiable" % (
+                self.f.get("name"), self.name))
+        return OPQ
+
+    def assign(self, v, rhs):
+        if isinstance(v, int):
+            self.cur = self.conv(v)
+            return
+        e = strip(rhs)
+        if kind(e) == "BinaryOperator" and e.get("opcode") == "%" and not self.mentions(e):
+            bt = int_type(self.tu, e.get("type"))
+            d = self.ev(kids(e)[1])
+            if bt is not None and not bt[1] and isinstance(d, int) and 0 < d <= self.LIMIT:
+                x = strip(kids(e)[0])
+                while kind(x) in ("MemberExpr", "ArraySubscriptExpr") and kids(x):
+                    if kind(x) == "ArraySubscriptExpr" and self.tu.fold(kids(x)[1]) is None:
+                        break
+                    x = strip(kids(x)[0])
+                if kind(x) != "DeclRefExpr":
+                    # every residue is possible for a plain frame-number lvalue; for a computed dividend that is an assumption
+                    self.imprecise = self.imprecise or "the dividend of `%s` is a computed value" % ctext(e)[:50]
+                self.cur = ("set", frozenset(self.conv(x) for x in range(d)))
+                return
+        bt = int_type(self.tu, self.vtype)
+        if bt is not None and bt[0] <= 8:
+            lo = -(1 << (bt[0] - 1)) if bt[1] else 0
+            self.cur = ("set", frozenset(range(lo, lo + (1 << bt[0]))))
+        else:
+            self.cur = ANYV
+
+    def outvals(self):
+        return list(self.cur[1]) if isinstance(self.cur, tuple) else [self.cur]
+
+    # -- expression evaluation with the side effects on the variable
+    def ev(self, n):
+        tu = self.tu
+        k = kind(n)
+        ks = kids(n)
+        if k in ("ParenExpr", "ConstantExpr") and ks:
+            return self.ev(ks[0])
+        if k in ("ImplicitCastExpr", "CStyleCastExpr") and ks:
+            a = self.ev(ks[0])
+            if a is OPQ:
+                return OPQ
+            ck = n.get("castKind")
+            if ck == "IntegralCast":
+                return cwrap(tu, a, n.get("type"))
+            if ck == "IntegralToBoolean":
+                return int(a != 0)
+            if ck in ("LValueToRValue", "NoOp"):
+                return a
+            return OPQ
+        if not self.has_defs(n) and not self.mentions(n):
+            c = tu.fold(n)
+            if c is not None:
+                return c
+        if k == "DeclRefExpr":
+            return self.read() if Locals._ref(n) == self.vid else OPQ
+        if k == "MemberExpr":
+            if self.has_defs(n):
+                raise AnalysisError("%s(): `%s` is updated inside a member access; unclassifiable" % (self.f.get("name"), self.name))
+            if n.get("name") == "period" and rtext(self.loc, ks[0]) == self.base:
+                return self.P
+            if self.mentions(n):
+                self.taint = True
+            return OPQ
+        if k == "UnaryOperator":
+            op = n.get("opcode")
+            if op in ("++", "--"):
+                if Locals._ref(ks[0]) == self.vid:
+                    old = self.read()
+                    if old is OPQ:
+                        self.cur = ANYV
+                        return OPQ
+                    self.cur = self.conv(old + (1 if op == "++" else -1))
+                    return old if n.get("isPostfix") else self.cur
+                if self.has_defs(ks[0]):
+                    self.ev(ks[0])
+                return OPQ
+            a = self.ev(ks[0])
+            if a is OPQ or op in ("&", "*"):
+                return OPQ
+            if op == "-":
+                return cwrap(tu, -a, n.get("type"))
+            if op == "+":
+                return a
+            if op == "~":
+                return cwrap(tu, ~a, n.get("type"))
+            if op == "!":
+                return int(not a)
+            return OPQ
+        if k == "BinaryOperator":
+            op = n.get("opcode")
+            l, r = ks
+            if op == "=":
+                if Locals._ref(l) == self.vid:
+                    self.assign(self.ev(r), r)
+                    return self.cur if isinstance(self.cur, int) else OPQ
+                for x in (l, r):
+                    if self.has_defs(x):
+                        self.ev(x)
+                return OPQ
+            if op == ",":
+                self.ev(l)
+                return self.ev(r)
+            if op in ("&&", "||"):
+                a = self.ev(l)
+                if a is OPQ:
+                    if self.has_defs(r):
+                        raise AnalysisError("%s(): `%s` is updated under a condition the analysis cannot evaluate (%s); unclassifiable" % (
+                            self.f.get("name"), self.name, ctext(l)[:50]))
+                    b = self.ev(r)
+                    if b is not OPQ and bool(b) == (op == "||"):
+                        return int(op == "||")
+                    return OPQ
+                if bool(a) == (op == "||"):
+                    return int(op == "||")
+                b = self.ev(r)
+                return OPQ if b is OPQ else int(bool(b))
+            a, b = self.ev(l), self.ev(r)
+            if a is OPQ or b is OPQ:
+                if (a is not OPQ and self.mentions(l)) or (b is not OPQ and self.mentions(r)):
+                    self.taint = True       # a value derived from the variable is absorbed by an unmodelled one
+                return OPQ
+            try:
+                v = _arith(op, a, b)
+            except (ZeroDivisionError, ValueError):
+                raise AnalysisError("%s(): undefined arithmetic in %s" % (self.f.get("name"), ctext(n)[:60]))
+            return v if op in ("<", ">", "<=", ">=", "==", "!=") else cwrap(tu, v, n.get("type"))
+        if k == "CompoundAssignOperator":
+            l, r = ks
+            if Locals._ref(l) == self.vid:
+                old, b = self.read(), self.ev(r)
+                if old is OPQ or b is OPQ:
+                    self.cur = ANYV
+                    return OPQ
+                try:
+                    v = _arith(n.get("opcode")[:-1], old, b)
+                except (ZeroDivisionError, ValueError):
+                    raise AnalysisError("%s(): undefined arithmetic in %s" % (self.f.get("name"), ctext(n)[:60]))
+                self.cur = self.conv(cwrap(tu, v, n.get("computeResultType") or n.get("type")))
+                return self.cur
+            for x in (l, r):
+                if self.has_defs(x):
+                    self.ev(x)
+            return OPQ
+        if k == "ConditionalOperator" and len(ks) == 3:
+            c = self.ev(ks[0])
+            if c is OPQ:
+                if self.has_defs(ks[1]) or self.has_defs(ks[2]):
+                    raise AnalysisError("%s(): `%s` is updated under a condition the analysis cannot evaluate (%s); unclassifiable" % (
+                        self.f.get("name"), self.name, ctext(ks[0])[:50]))
+                x, y = self.ev(ks[1]), self.ev(ks[2])
+                if x is not OPQ and y is not OPQ and x == y:
+                    return x
+                if self.mentions(ks[1]) or self.mentions(ks[2]):
+                    self.taint = True
+                return OPQ
+            return self.ev(ks[1] if c else ks[2])
+        # anything else (calls, subscripts, literals, sizeof, ...): unmodelled value
+        if self.has_defs(n):
+            if k in ("CallExpr", "ArraySubscriptExpr"):
+                for c in ks:
+                    if self.has_defs(c):
+                        self.ev(c)
+                return OPQ
+            raise AnalysisError("%s(): `%s` is updated inside a %s; unclassifiable" % (self.f.get("name"), self.name, k))
+        if self.mentions(n):
+            self.taint = True
+        return OPQ
+
+    def exec_stmt(self, a):
+        k = kind(a)
+        if k == "DeclStmt":
+            for vd in kids(a):
+                if kind(vd) != "VarDecl":
+                    continue
+                init = [c for c in kids(vd) if "Comment" not in (kind(c) or "") and not (kind(c) or "").endswith("Attr")]
+                if vd.get("id") == self.vid:
+                    if init:
+                        self.assign(self.ev(init[0]), init[0])
+                    else:
+                        self.cur = UNINIT
+                elif init and self.has_defs(init[0]):
+                    self.ev(init[0])
+        elif k == "ReturnStmt":
+            for c in kids(a):
+                self.ev(c)
+        else:
+            self.ev(a)
+
+    def step(self, node, v):
+        """[(successor, value of the variable on entry of the successor)]"""
+        self.cur = v
+        if node.kind == "stmt":
+            a = node.ast
+            if kind(a) == "DeclStmt" or (kind(a) != "DoHead" and self.has_defs(a)):
+                self.exec_stmt(a)
+            outs = self.outvals()
+            return [(s, o) for s, _ in node.succ for o in outs]
+        if node.kind == "cond":
+            c = getattr(node, "cond", None)
+            self.taint = False
+            if c is None:
+                r = 1
+            elif self.has_defs(c) or self.mentions(c):
+                r = self.ev(c)
+            else:
+                r = OPQ
+            if r is OPQ:
+                self.opaque_conds[node.id] = node
+                if self.taint:
+                    self.imprecise = self.imprecise or "the outcome of `%s` depends on the index in a way the analysis does not model" % ctext(c)[:50]
+            outs = self.outvals()
+            return [(s, o) for s, lab in node.succ if r is OPQ or bool(r) == bool(lab) for o in outs]
+        c = getattr(node, "cond", None)
+        if node.kind == "switch" and c is not None:
+            if self.has_defs(c):
+                raise AnalysisError("%s(): `%s` is updated in a switch condition; unclassifiable" % (self.f.get("name"), self.name))
+            if self.mentions(c):
+                self.imprecise = self.imprecise or "switch on the index"
+        return [(s, v) for s, _ in node.succ]
+
+    # -- fixpoint
+    def solve(self, use_node, use_expr):
+        """(set of index values at the lookup, witness) where witness is
+        None or (offending index value, chain of values of the variable along
+        a shortest path from the function entry)."""
+        host = use_node.cond if use_node.kind in ("cond", "switch") else use_node.ast
+        for x in walk(host):
+            if id(x) in self.defids and not any(y is x for y in walk(use_expr)):
+                raise AnalysisError("%s(): `%s` is updated in the statement of the frame lookup; unclassifiable" % (
+                    self.f.get("name"), self.name))
+        g = self.g
+        states = {g.entry.id: {UNINIT}}
+        parent = {}
+        work = [(g.entry, UNINIT)]
+        at_use = set()
+        qi = 0
+        while qi < len(work):
+            node, v = work[qi]
+            qi += 1
+            if node is use_node:
+                if v == UNINIT:
+                    raise AnalysisError("%s(): index variable `%s` may be uninitialised at the frame lookup" % (self.f.get("name"), self.name))
+                if v == ANYV:
+                    raise AnalysisError("%s(): cannot bound index variable `%s` at the frame lookup" % (self.f.get("name"), self.name))
+                self.cur = v
+                iv = self.ev(use_expr)
+                if iv is OPQ:
+                    raise AnalysisError("%s(): cannot evaluate the lookup index `%s`" % (self.f.get("name"), ctext(use_expr)[:50]))
+                at_use.add(iv)
+                if not 0 <= iv < self.P:
+                    chain = []
+                    key = (node.id, v)
+                    while key is not None:
+                        if key[1] not in (UNINIT, ANYV) and (not chain or chain[-1] != key[1]):
+                            chain.append(key[1])
+                        key = parent.get(key)
+                    return at_use, (iv, list(reversed(chain)))
+            for s, o in self.step(node, v):
+                st = states.setdefault(s.id, set())
+                if o not in st:
+                    st.add(o)
+                    if len(st) > self.LIMIT:
+                        raise AnalysisError("%s(): the value set of index variable `%s` does not converge" % (self.f.get("name"), self.name))
+                    parent[(s.id, o)] = (node.id, v)
+                    work.append((s, o))
+        return at_use, None
+
+    def proof_obstacle(self, use_node):
+        """Why an out-of-range value found by solve() is NOT a proof that the
+        lookup can leave the table (None: it is).  Unevaluated conditions are
+        harmless when they only gate whether the lookup is reached at all, or
+        when no update of the index depends on them."""
+        if self.imprecise:
+            return self.imprecise
+        g = self.g
+        pdom = postdominators(g)
+        for c in self.opaque_conds.values():
+            succs = [s for s, _ in c.succ]
+            if sum(1 for s in succs if s is use_node or use_node.id in g.reach(s, labels_skip=())) < 2:
+                continue
+            stop = pdom[c.id] - {c.id}
+            seen = set()
+            todo = list(succs)
+            while todo:
+                x = todo.pop()
+                if x.id in seen or x.id in stop:
+                    continue
+                seen.add(x.id)
+                host = x.cond if x.kind in ("cond", "switch") else x.ast
+                if host is not None and kind(host) != "DoHead" and (
+                        self.has_defs(host) or (kind(host) == "DeclStmt" and any(vd.get("id") == self.vid for vd in kids(host)))):
+                    return "which update of the index is executed depends on `%s`, which the analysis cannot evaluate" % (
+                        ctext(c.cond)[:50] if getattr(c, "cond", None) is not None else "a condition")
+                todo.extend(s for s, _ in x.succ)
+        return None
+
+
+def postdominators(g):
+    ids = [n.id for n in g.nodes]
+    full = set(ids)
+    pd = {n.id: ({n.id} if not n.succ else set(full)) for n in g.nodes}
+    changed = True
+    while changed:
+        changed = False
+        for n in reversed(g.nodes):
+            if not n.succ:
+                continue
+            new = set(full)
+            for s, _ in n.succ:
+                new &= pd[s.id]
+            new.add(n.id)
+            if new != pd[n.id]:
+                pd[n.id] = new
+                changed = True
+    return pd
+
+
+def incremental_index(tu, f, g, loc, use, idx, base, periods):
+    """C11.R1, clause `no frame lookup for any frame number leaves the table`, for a lookup
+    frames[v] whose index is a local variable with several definitions (maintained incrementally):
+    for every layout period P the values v can hold at the lookup, computed by IndexRange from the
+    variable's own definitions and the guards over it, are all in 0..P-1.
+    -> (ok, found text)."""
+    fname = f.get("name")
+    vid = Locals._ref(idx) if kind(idx) == "DeclRefExpr" else None
+    if vid is None:
+        cand = {Locals._ref(x) for x in walk(idx) if kind(x) == "DeclRefExpr" and loc.is_local(x) and not loc.is_param(x)}
+        if len(cand) != 1:
+            raise AnalysisError("%s(): frame lookup index `%s` is not a remainder expression; unclassifiable" % (fname, ctext(idx)[:60]))
+        vid = cand.pop()
+    use_node = g.node_of(use)
+    bad = []
+    for P in periods:
+        ir = IndexRange(tu, f, g, loc, vid, base, P)
+        vals, wit = ir.solve(use_node, idx)
+        if not vals:
+            raise AnalysisError("%s(): the frame lookup is unreachable in the index analysis" % fname)
+        if wit is not None:
+            why = ir.proof_obstacle(use_node)
+            if why is not None:
+                raise AnalysisError("%s(): index variable `%s` of the frame lookup may reach %d with period %d, but %s; cannot tell" % (
+                    fname, ir.name, wit[0], P, why))
+            bad.append("period %d: index %d (values of `%s` along a path to the lookup: %s)" % (
+                P, wit[0], ir.name, " -> ".join(str(x) for x in wit[1][-6:])))
+    if bad:
+        return False, "; ".join(bad[:3])
+    return True, "within 0..period-1 for the periods %s" % ",".join(str(p) for p in periods)
 
 
 # =========================================================== trxcon tables
@@ -531,7 +1073,7 @@ def r1_tables(L, T):
 
 # --------------------------------------------------- frame lookup sites
 
-def lookup_sites(L, tu, relfile, rule="C11.R1"):
+def lookup_sites(L, tu, relfile, periods, rule="C11.R1"):
     """Every use of <layout>->frames in a parsed TU must be the lookup
     frames[x % <same layout>->period].  A function whose lookup goes through
     one of its own parameters of type `struct l1sched_tdma_multiframe *`
@@ -574,11 +1116,22 @@ def lookup_sites(L, tu, relfile, rule="C11.R1"):
             if hp is None:
                 count += 1
             e = strip(idx)
+            stepwise = (kind(e) == "DeclRefExpr" and loc.is_local(e) and not loc.is_param(e) and loc.single(e) is None) or \
+                (kind(e) == "UnaryOperator" and e.get("opcode") in ("++", "--") and loc.is_local(kids(e)[0]) and
+                 not loc.is_param(kids(e)[0]))
+            if stepwise:
+                # index maintained incrementally (several definitions): finite-domain analysis of the variable
+                ok, found = incremental_index(tu, f, g, loc, m, e, base, periods)
+                L.ob(rule, relfile, fname,
+                     "frame lookup in the layout `%s`: the incrementally maintained index stays within 0..<that layout>->period - 1" % base,
+                     "within 0..period-1 for the periods %s" % ",".join(str(p) for p in periods), found, ok, tu.line(m))
+                if hp is not None:
+                    if fname in helpers:
+                        ok = ok and helpers[fname][2]
+                    helpers[fname] = (hp, base, ok, found, tu.line(m))
+                continue
             if kind(e) == "DeclRefExpr" and loc.is_local(e) and not loc.is_param(e):
                 s = loc.single(e)
-                if s is None:
-                    raise AnalysisError("%s(): index variable `%s` of the frame lookup has %s definitions; unclassifiable" % (
-                        fname, ctext(e), loc.ndefs(e)))
                 vd = loc.decl[Locals._ref(e)]
                 vt = vd.get("type", {}).get("qualType", "")
                 if not g.dominates(g.node_of(s[1]), g.node_of(m)):
@@ -666,15 +1219,46 @@ def r1_alloc_by_mask(L, T, tu):
     guards = g.guards(g.node_of(st))
     rel = []
     maskbases = set()
+    via = []            # helper functions the membership test goes through
+    def closure(cnode, cond):
+        """cond + the definitions of the single-definition pure locals it reads (transitively); each
+        such definition must dominate the condition"""
+        out, seen, k = [cond], set(), 0
+        while k < len(out):
+            for x in walk(out[k]):
+                if kind(x) == "DeclRefExpr" and loc.is_local(x) and not loc.is_param(x) and Locals._ref(x) != tv:
+                    sd = loc.single(x)
+                    if sd is not None and pure(sd[0], calls_ok=True) and id(sd[0]) not in seen and \
+                            g.dominates(g.node_of(sd[1]), cnode):
+                        seen.add(id(sd[0]))
+                        out.append(sd[0])
+            k += 1
+        return out
     for (c, lab) in guards:
         cond = getattr(c, "cond", None)
         if cond is None:
             continue
-        if any(Locals._ref(x) == tv for x in walk(cond) if kind(x) == "DeclRefExpr"):
+        cl = closure(c, cond)
+        if any(Locals._ref(x) == tv for e in cl for x in walk(e) if kind(x) == "DeclRefExpr"):
             rel.append((cond, lab))
-            for x in walk(cond):
+            for x in (x for e in cl for x in walk(e)):
                 if kind(x) == "MemberExpr" and x.get("name") == "lchan_mask":
                     maskbases.add(rtext(loc, kids(x)[0]))
+                elif kind(x) == "CallExpr":
+                    # a single-return helper (evaluated on its body by ceval): the masks it reads belong
+                    # to the layouts the caller passes for the corresponding parameters
+                    hname, hf, ret = pure_callee(tu, x)
+                    hp = {p["id"]: i for i, p in enumerate(tu.fparams(hf))}
+                    via.append("%s() returning `%s`" % (hname, hf.get("type", {}).get("qualType", "?").split("(")[0].strip()))
+                    for y in walk(ret):
+                        if kind(y) == "CallExpr":
+                            raise AnalysisError("%s(): helper %s() calls further functions; unclassifiable" % (fname, hname))
+                        if kind(y) == "MemberExpr" and y.get("name") == "lchan_mask":
+                            pi = hp.get(Locals._ref(kids(y)[0]))
+                            if pi is None:
+                                raise AnalysisError("%s(): helper %s() reads the lchan_mask of something that is not "
+                                                    "one of its parameters; unclassifiable" % (fname, hname))
+                            maskbases.add(rtext(loc, call_args(x)[pi]))
     masks = sorted({lay["lchan_mask"] for lay in T.layouts})
     bad = None
     for m in masks:
@@ -684,11 +1268,18 @@ def r1_alloc_by_mask(L, T, tu):
                     return t
                 if kind(n) == "MemberExpr" and n.get("name") == "lchan_mask":
                     return m
+                if kind(n) == "DeclRefExpr" and loc.is_local(n) and not loc.is_param(n):
+                    sd = loc.single(n)
+                    if sd is not None and pure(sd[0], calls_ok=True):
+                        # the initialiser / right-hand side carries the conversion to the local's type
+                        return ceval(tu, sd[0], leaf)
                 return _NOTHING
             got = all(truth(ceval(tu, c, leaf)) == bool(lab) for c, lab in rel)
             want = t < T.chan_max and bool(m >> t & 1)
             if got != want and bad is None:
-                bad = "mask 0x%x, type %d: allocated=%s" % (m, t, got)
+                bad = "mask 0x%x, type %d (%s): allocated=%s" % (m, t, T.lname.get(t, "?").replace("L1SCHED_", ""), got)
+                if via:
+                    bad += " (membership test evaluated through %s, result conversion included)" % ", ".join(sorted(set(via)))
     L.ob("C11.R1", F_TRX, fname,
          "a channel state is allocated for type t iff t < _L1SCHED_CHAN_MAX and bit t of the layout's lchan_mask is set",
          "equivalent for all %d masks x %d types" % (len(masks), T.chan_max + 1),
@@ -1112,7 +1703,11 @@ def r3_trigger(L, FW, latency):
                 A, fnv = c, list(co)[0]
                 want = X.cmp_("==", X.mod(X.add(X.V(fnv), X.C(A)), X.V("%s->modulo" % sname)),
                               X.mod(X.V("%s->frame_nr" % sname), X.V("%s->modulo" % sname)))
-                L.ob("C11.R3", F_FW, fname, key, X.show(want), X.show(t), t == want, tu.line(call))
+                if t == want:
+                    L.ob("C11.R3", F_FW, fname, key, X.show(want), X.show(t), True, tu.line(call))
+                else:
+                    # two remainders, but not literally the canonical pair: decided on the table rows
+                    A = trigger_by_rows(L, FW, tu, fname, loc, sid, sname, trig[0], t, key, call)
                 break
         else:
             L.ob("C11.R3", F_FW, fname, key,
@@ -1179,8 +1774,7 @@ def r3_trigger(L, FW, latency):
         L.ob("C11.R3", F_FW, fname, key, canon.replace("+ A", "+ %d" % A),
              X.show(t) if witness is None else "unsigned wrap in the folded difference: %s" % witness, witness is None, tu.line(call))
     else:
-        raise AnalysisError("%s(): trigger condition `%s` is not a comparison of two remainders; unclassifiable" % (
-            fname, X.show(t)[:100]))
+        A = trigger_by_rows(L, FW, tu, fname, loc, sid, sname, trig[0], t, key, call)
     args = call_args(call)
     if len(args) != 3:
         raise AnalysisError("tdma_schedule_set call has %d arguments" % len(args))
@@ -1192,6 +1786,129 @@ def r3_trigger(L, FW, latency):
          {"A - D": latency}, {"A": A, "D": D, "A - D": A - D}, A - D == latency and D >= 0, tu.line(call))
     L.ob("C11.R3", F_FW, fname, "the scheduled item set is the row's sched_set",
          "%s->sched_set" % sname, rtext(loc, args[1]), rtext(loc, args[1]) == "%s->sched_set" % sname, tu.line(call))
+
+
+def term_mentions(t, pred):
+    if not isinstance(t, tuple):
+        return False
+    if t and t[0] == "v":
+        return pred(t[1])
+    return any(term_mentions(x, pred) for x in t[1:])
+
+
+def trigger_by_rows(L, FW, tu, fname, loc, sid, sname, trig, t, key, call):
+    """C11.R3, clause `the frames in which the firmware starts a block are the frames == frame_nr (mod
+    modulo)`, for a trigger that is NOT written as a comparison of two remainders: the condition must
+    have the normal form  ((fn + A) mod <row>->modulo) == R  with R free of the frame number.  Its truth
+    is then a function of ((fn + A) mod modulo, row), so it is decided exactly by evaluating the
+    condition (checker's own evaluator, C conversions applied) for every row of every task table up to
+    its terminator and every fn of one full period 0..modulo-1, and comparing the set of frames in which
+    the row's set is queued with the reference set {fn : (fn + A) mod modulo == frame_nr mod modulo}.
+    Returns the look-ahead A."""
+    def is_fn(name):
+        return name.endswith("current_time.fn")
+    A = None
+    if t[0] == "cmp" and t[1] == "==":
+        for a, b in ((t[2], t[3]), (t[3], t[2])):
+            if a[0] == "mod" and (a[2] == X.V("%s->modulo" % sname) or (X.is_c(a[2]) and a[2][1] >= 1)) and \
+                    not term_mentions(b, is_fn):
+                co, c = X.linear(a[1])
+                if len(co) == 1 and list(co.values()) == [1] and is_fn(list(co)[0]):
+                    A = c
+                    break
+    if A is None:
+        raise AnalysisError("%s(): trigger condition `%s` is not a comparison of a frame-number remainder with "
+                            "a value of the row; unclassifiable" % (fname, X.show(t)[:100]))
+    if not 0 <= A < (1 << 16):
+        raise AnalysisError("%s(): look-ahead %d of the trigger: fn + A may wrap; cannot model it" % (fname, A))
+    # the remainder operation: fn enters the condition only through its left operand, which must be
+    # computed without a narrowing conversion (then (fn + A) is exact for every fn of the hyperframe)
+    cond, lab = trig
+    exprs = [cond]
+    seen = set()
+    k = 0
+    while k < len(exprs):
+        for x in walk(exprs[k]):
+            if kind(x) == "DeclRefExpr" and loc.is_local(x) and not loc.is_param(x) and Locals._ref(x) != sid:
+                sd = loc.single(x)
+                if sd is None or not pure(sd[0]):
+                    raise AnalysisError("%s(): local `%s` of the trigger condition is not a single pure definition" % (
+                        fname, ctext(x)))
+                if id(sd[0]) not in seen:
+                    seen.add(id(sd[0]))
+                    exprs.append(sd[0])
+        k += 1
+
+    def fn_dep(e):
+        for x in walk(e):
+            if kind(x) == "MemberExpr" and is_fn(ctext(x)):
+                return True
+            if kind(x) == "DeclRefExpr" and loc.is_local(x) and not loc.is_param(x):
+                sd = loc.single(x)
+                if sd is not None and fn_dep(sd[0]):
+                    return True
+        return False
+    mods = [x for e in exprs for x in walk(e) if kind(x) == "BinaryOperator" and x.get("opcode") == "%" and
+            fn_dep(kids(x)[0])]
+    if len(mods) != 1 or fn_dep(kids(mods[0])[1]):
+        raise AnalysisError("%s(): cannot locate the remainder operation of the trigger; unclassifiable" % fname)
+    div_is_modulo = rtext(loc, kids(mods[0])[1]) == "%s->modulo" % sname
+    div_const = tu.fold(kids(mods[0])[1])
+    if not div_is_modulo and (div_const is None or div_const < 1):
+        raise AnalysisError("%s(): the frame number is reduced modulo `%s`; unclassifiable" % (fname, ctext(kids(mods[0])[1])[:40]))
+    for x in walk(kids(mods[0])[0]):
+        if kind(x) in ("ImplicitCastExpr", "CStyleCastExpr") and x.get("castKind") == "IntegralCast" and fn_dep(x):
+            bt = int_type(tu, x.get("type"))
+            if bt is None or bt[0] < 32:
+                raise AnalysisError("%s(): the frame number is converted to `%s` before the remainder; cannot model it" % (
+                    fname, x.get("type", {}).get("qualType")))
+    bad = []
+    nrows = 0
+    for task in sorted(FW.tasks, key=lambda q: FW.tasks[q]):
+        tab, rows = FW.task_rows(task)
+        for i, r in enumerate(rows or []):
+            mo = r["modulo"]
+            if mo < 1:
+                continue      # reported by r3_fw_tables
+            nrows += 1
+            cur = [0]
+
+            def leaf(n, r=r, cur=cur):
+                kk = kind(n)
+                if kk == "MemberExpr":
+                    tx = rtext(loc, n)
+                    if tx == "%s->frame_nr" % sname:
+                        return r["frame_nr"]
+                    if tx == "%s->modulo" % sname:
+                        return r["modulo"]
+                    if tx == "%s->flags" % sname:
+                        return r["flags"]
+                    if is_fn(ctext(n)):
+                        return cur[0]
+                    raise AnalysisError("%s(): trigger condition reads `%s`; outside the evaluator's model" % (fname, tx[:60]))
+                if kk == "DeclRefExpr" and loc.is_local(n) and not loc.is_param(n) and Locals._ref(n) != sid:
+                    return ceval(tu, loc.single(n)[0], leaf)
+                return _NOTHING
+            # the condition is a function of (fn + A) mod <divisor> and the row: one period of the divisor
+            # (joined with the row's modulo for the comparison) is exhaustive
+            span = mo if div_is_modulo else lcm(mo, div_const)
+            if span > 200000:
+                raise AnalysisError("%s(): period %d of the trigger condition is too long to enumerate" % (fname, span))
+            fired = set()
+            for fn0 in range(span):
+                cur[0] = fn0
+                if truth(ceval(tu, cond, leaf)) == bool(lab):
+                    fired.add(fn0)
+            ref = {fn0 for fn0 in range(span) if (fn0 + A) % mo == r["frame_nr"] % mo}
+            if fired != ref and len(bad) < 4:
+                bad.append("%s row %d of %s (frame_nr %d, modulo %d): set queued in fn mod %d = %s, required %s" % (
+                    task, i, tab["name"], r["frame_nr"], mo, span, fmt_set(fired), fmt_set(ref)))
+    L.floor("C11.R3", "table rows the trigger is evaluated on", nrows, 128)
+    L.ob("C11.R3", F_FW, fname, key,
+         "for every row: queued exactly in the frames with (fn + %d) mod modulo == frame_nr mod modulo" % A,
+         "; ".join(bad) if bad else "for every row: queued exactly in the frames with (fn + %d) mod modulo == frame_nr mod modulo" % A,
+         not bad, tu.line(call))
+    return A
 
 
 # ====================================================== R4: cross-agreement
@@ -1603,45 +2320,84 @@ def t_configure_callers(L, T, lookup, tus):
 
 # =================================================================== run
 
-def run(L, tier):
-    M = load_spec("mframe_map.json")
-    S = load_spec("ts45002_clause7.json")
-    latency = M.get("dsp_latency_frames")
-    if not isinstance(latency, int):
-        raise AnalysisError("spec/mframe_map.json: dsp_latency_frames missing")
+def layout_periods(T):
+    return sorted({lay["period"] for lay in T.layouts if lay["period"] > 0})
+
+
+def s_trxcon(L, M):
     L.unit("src/host/trxcon/include/osmocom/bb/l1sched/l1sched.h")
     T = Trxcon(L)
     for k, v in M.get("config_values", {}).items():
         if isinstance(v, int):
             T.extra_cfg[k] = v
-    r1_tables(L, T)
-    tu_trx = TU(L.repo, "trxcon", "src/sched_trx.c", L=L)
-    nsites = lookup_sites(L, tu_trx, F_TRX)
+    return T
+
+
+def s_trx_tu(L):
+    return TU(L.repo, "trxcon", "src/sched_trx.c", L=L)
+
+
+def s_lookup_sites(L, T, tu_trx):
+    nsites = lookup_sites(L, tu_trx, F_TRX, layout_periods(T))
     L.floor("C11.R1", "frame lookup sites in sched_trx.c", nsites, 4)
-    r1_alloc_by_mask(L, T, tu_trx)
-    lookup, LL = r2_lookup(L, T)
-    FW = Firmware(L)
-    r3_fw_tables(L, FW)
-    r3_trigger(L, FW, latency)
+
+
+def s_cross(L, T, FW, r2, M, S):
+    lookup, LL = r2
     # when C11.R2 already reported invalid lookups there are fewer layouts to compare with;
     # the comparison floors only apply to a complete lookup model
     complete = len(lookup) >= 64
     r4_cross(L, T, FW, lookup, M, complete)
     r4_spec(L, T, lookup, M, S, complete)
-    L.extra["tables"] = {
-        "trxcon_layouts": len(T.layouts),
-        "trxcon_frame_tables": len(T.tables),
-        "trxcon_rows": sum(len(t["rows"]) for t in T.tables.values()),
-        "firmware_tables": len(FW.tables),
-        "firmware_rows": sum(len(t["rows"]) for t in FW.tables.values()),
-        "lookup_pairs": len(lookup),
-    }
+
+
+def s_thorough_tus(L, T, tu_trx):
+    tus = {F_TRX: tu_trx, F_MF: T.tu}
+    tus[F_FSM] = TU(L.repo, "trxcon", "src/trxcon_fsm.c", L=L)
+    tus[F_L1CTL] = TU(L.repo, "trxcon", "src/l1ctl.c", L=L)
+    return tus
+
+
+def s_thorough_sites(L, T, tus):
+    t_directory_scan(L, set(tus))
+    lookup_sites(L, T.tu, F_MF, layout_periods(T))
+    for rel in (F_FSM, F_L1CTL):
+        lookup_sites(L, tus[rel], rel, layout_periods(T))
+
+
+def s_thorough_callers(L, T, r2, tus):
+    t_configure_callers(L, T, r2[0], tus)
+
+
+def run(L, tier):
+    # Independent rule groups run as stages (report.Ledger.stage): an AnalysisError inside one group is
+    # deferred, a violation recognised by another group is still reported; a group whose input is the
+    # result of a failed group is skipped.
+    M = load_spec("mframe_map.json")
+    S = load_spec("ts45002_clause7.json")
+    latency = M.get("dsp_latency_frames")
+    if not isinstance(latency, int):
+        raise AnalysisError("spec/mframe_map.json: dsp_latency_frames missing")
+    T = L.stage(s_trxcon, L, M)
+    L.stage(r1_tables, L, T)
+    tu_trx = L.stage(s_trx_tu, L)
+    L.stage(s_lookup_sites, L, T, tu_trx)
+    L.stage(r1_alloc_by_mask, L, T, tu_trx)
+    r2 = L.stage(r2_lookup, L, T)
+    FW = L.stage(Firmware, L)
+    L.stage(r3_fw_tables, L, FW)
+    L.stage(r3_trigger, L, FW, latency)
+    L.stage(s_cross, L, T, FW, r2, M, S)
+    if T and FW:
+        L.extra["tables"] = {
+            "trxcon_layouts": len(T.layouts),
+            "trxcon_frame_tables": len(T.tables),
+            "trxcon_rows": sum(len(t["rows"]) for t in T.tables.values()),
+            "firmware_tables": len(FW.tables),
+            "firmware_rows": sum(len(t["rows"]) for t in FW.tables.values()),
+            "lookup_pairs": len(r2[0]) if r2 else None,
+        }
     if tier == "thorough":
-        tus = {F_TRX: tu_trx, F_MF: T.tu}
-        tus[F_FSM] = TU(L.repo, "trxcon", "src/trxcon_fsm.c", L=L)
-        tus[F_L1CTL] = TU(L.repo, "trxcon", "src/l1ctl.c", L=L)
-        t_directory_scan(L, set(tus))
-        n = lookup_sites(L, T.tu, F_MF)
-        for rel in (F_FSM, F_L1CTL):
-            n += lookup_sites(L, tus[rel], rel)
-        t_configure_callers(L, T, lookup, tus)
+        tus = L.stage(s_thorough_tus, L, T, tu_trx)
+        L.stage(s_thorough_sites, L, T, tus)
+        L.stage(s_thorough_callers, L, T, r2, tus)
